@@ -72,6 +72,26 @@ def write_set(body):
   return names, attrs
 
 
+def dead_at_head(body):
+  """names that every iteration assigns (plain top-level assignment) before reading: they carry nothing across the back
+  edge, so the inferred shape invariant does not constrain them"""
+  dead, loaded = set(), set()
+  for st in body:
+    loads = {n.id for n in ast.walk(st) if isinstance(n, ast.Name) and isinstance(n.ctx, ast.Load)}
+    if isinstance(st, ast.Assign):
+      stores = set()
+      for t in st.targets:
+        for n in ast.walk(t):
+          if isinstance(n, ast.Name) and isinstance(n.ctx, ast.Store):
+            stores.add(n.id)
+      for nm in stores:
+        if nm not in loaded and nm not in loads:
+          dead.add(nm)
+    loaded |= loads
+    # anything stored inside compound statements may or may not execute: not dead
+  return dead
+
+
 def havoc_value(ex, p, v, hint):
   """fresh value of the same python type / array shape"""
   if isinstance(v, VInt):
@@ -260,6 +280,7 @@ def loop_hook(ex, st, p, module):
   out_paths = []
   iters = ex.ev(st.iter, p, module) if is_for else [(p, None)]
   for p0, it in iters:
+    it = small_concrete(ex, p0, it, st)
     # small concrete python sequences: unroll
     if is_for and isinstance(it, (VList, VTuple)) and len(it.items) <= 4:
       paths = [p0]
@@ -314,6 +335,35 @@ def loop_with_optionals(ex, st, p0, it, module, is_for, inv, target, ordinal, op
     return out
 
 
+def small_concrete(ex, p, it, st):
+  """arrays / ranges / enumerations whose length is a small constant on this path are unrolled (python ints as indices)"""
+  from npvc.libspec import Cx
+  cx = Cx(ex.lib, ex, p, st)
+  def arr_items(a):
+    s_ = p.store[a.loc]
+    if not s_.shape.concrete or s_.shape.rank < 1:
+      return None
+    n = cx.conc(s_.shape.dims[0])
+    if n is None or n > 4:
+      return None
+    out = []
+    for i in range(n):
+      (q, v), = ex.lib.np.index(cx, a, s_, [VInt(i)])
+      out.append(v)
+    return out
+  if isinstance(it, VArr):
+    items = arr_items(it)
+    return VList(items) if items is not None else it
+  if isinstance(it, VEnumerate) and isinstance(it.v, VArr):
+    items = arr_items(it.v)
+    return VList([VTuple([VInt(i), x]) for i, x in enumerate(items)]) if items is not None else it
+  if isinstance(it, VRange) and len(it.args) == 1 and isinstance(it.args[0], VInt):
+    n = it.args[0].conc()
+    if n is not None and 0 <= n <= 4:
+      return VList([VInt(i) for i in range(n)])
+  return it
+
+
 def view(ex, p):
   from npvc.contracts import unwrap
 
@@ -330,6 +380,7 @@ def view(ex, p):
 
 def one_loop(ex, st, p, it, module, is_for, inv, target, ordinal, optional=frozenset()):
   names, attrs = write_set(st.body + (st.orelse if False else []))
+  dead = dead_at_head(st.body)
   selfv = p.env.get('self')
   tag = '%s/loop%s@L%d' % (target, ordinal, st.lineno)
   # ---- invariant at entry
@@ -405,7 +456,7 @@ def one_loop(ex, st, p, it, module, is_for, inv, target, ordinal, optional=froze
     try:
       for q in ends:
         for k in names:
-          if k in head_env and k in q.env and not (k in optional and isinstance(head_env[k], VNone)):
+          if k in head_env and k in q.env and k not in dead and not (k in optional and isinstance(head_env[k], VNone)):
             same_type(ex, q, head_env[k], q.env[k], k, st)
     except Widen as w:
       if w.name in widened:
@@ -419,7 +470,7 @@ def one_loop(ex, st, p, it, module, is_for, inv, target, ordinal, optional=froze
   for q in ends:
     conds = []
     for k in names:
-      if k in head_env and k in q.env and not (k in optional and isinstance(head_env[k], VNone)):
+      if k in head_env and k in q.env and k not in dead and not (k in optional and isinstance(head_env[k], VNone)):
         conds += same_type(ex, q, head_env[k], q.env[k], k, st)
     if isinstance(selfv, VObj):
       for a in attrs:
@@ -469,9 +520,10 @@ def one_loop(ex, st, p, it, module, is_for, inv, target, ordinal, optional=froze
     for t in ast.walk(st.target):
       if isinstance(t, ast.Name):
         new_names.add(t.id)
+  new_names |= {k for k in dead if k in head_env}        # re-assigned by every iteration: the last iteration's value survives
   sample = (ends + breaks)[0] if (ends + breaks) else None
   for k in sorted(new_names):
-    if k in exit_p.env and k not in names and not is_for:
+    if k in exit_p.env and k not in names and not is_for and k not in dead:
       continue
     if sample is not None and k in sample.env:
       exit_p.env[k] = transfer(sample.env[k], sample, exit_p, k)
